@@ -23,7 +23,7 @@ RULE = ('(a) the C03 history generator (minus queue/sorted-iteration calls Fanou
         'calls judged + keys routed; distinct_nontrivial = distinct (operation, outcome, shard count) cells + distinct '
         '(key class, shard count, hash-seed pair) routing cells')
 DISTINCT = ('cells', 'routing_cells')
-REQUIRED = ('calls_judged', 'histories', 'shard_counts_seen', 'keys_cross_process', 'golden_hashes_compared',
+REQUIRED = ('bulk_removals_while_shards_locked', 'histories_with_stored_pickle_protocol', 'calls_judged', 'histories', 'shard_counts_seen', 'keys_cross_process', 'golden_hashes_compared',
             'equal_key_pairs', 'check_damage_cases', 'aggregate_calls', 'partial_reopen_cases', 'handle_exchanges', 'skewed_culls', 'settings_reloaded_through_another_handle')
 ASSUMPTIONS = ('iteration order over shards is shard-major by design: compared as a permutation',
                'golden routing was recorded from the pinned commit by tools/mkgolden.py')
@@ -476,6 +476,55 @@ def reload_settings(dc, sc, res, rng, shards, label):
         sc.drop(d)
 
 
+def bulk_while_shards_locked(dc, sc, res, rng, shards, label):
+    """clear / evict / expire through the sharded handle while another connection holds the write lock of some shards
+    for a few attempts: the call covers every shard all the same - once the locks are free nothing it was asked to
+    remove is left, and the count it returns is the number of items removed."""
+    from .c14 import Holder, LockFault
+    d = sc.new()
+    f = dc.FanoutCache(d, shards=shards, timeout=0, cull_limit=0)
+    holder = None
+    try:
+        n = rng.randrange(20, 60)
+        for i in range(n):
+            f.set(('k', i) if i % 3 else 'k%d' % i, i, tag='bulk', expire=-1 if i % 2 else None)
+        name = gen.pick(rng, ['clear', 'evict', 'expire'])
+        want = n if name != 'expire' else n // 2
+        locked = sorted(rng.sample(range(shards), rng.randrange(1, shards + 1)))
+        holder = Holder([os.path.join(d, '%03d' % i) for i in locked])
+        k = rng.randrange(1, 5)
+        ctrl = LockFault(holder, 'release_after', k, 1)
+        holder.take()
+        probe.watch(d)
+        probe.set_controller(ctrl)
+        try:
+            got = outcome_of(lambda: {'clear': f.clear, 'evict': lambda: f.evict('bulk'), 'expire': f.expire}[name]())
+        finally:
+            probe.set_controller(None)
+        held = holder.held
+        holder.release()
+        left = len(f)
+        res.count('evaluations')
+        res.count('bulk_removals_while_shards_locked')
+        wit = {'label': label, 'shards': shards, 'locked_shards': locked, 'failed_attempts_before_release': k, 'call': name}
+        if held or got != ('ok', want) or left != n - want:
+            res.violation('%s() through a %d-shard handle while shards %r were locked by another connection for %d attempts: '
+                          'returned %r (lock still held: %s), %d of %d items left, expected %d removed' % (
+                              name, shards, locked, k, got, held, left, n, want), wit)
+    finally:
+        if holder is not None:
+            holder.close()
+        f.close()
+        sc.drop(d)
+
+
+def outcome_of(fn):
+    try:
+        return ('ok', fn())
+    except Exception as exc:       # noqa: BLE001
+        return ('raise', '%s: %s' % (type(exc).__name__, exc))
+
+
 def run_shard(tier, seed, shard, nshards, res):
     dc = common.use_repo()
     probe.install()
@@ -487,6 +536,11 @@ def run_shard(tier, seed, shard, nshards, res):
             cfg = dict(gen.pick(rng, cfgs))
             if rng.random() < 0.5:
                 cfg['size_limit'] = gen.pick(rng, [2**29, 2**31, 3 * 2**28])
+            if rng.random() < 0.5:
+                # a stored (non-default) key serialisation: handles exchanged later do not repeat the setting and must
+                # still route every pickled key to the shard that holds it
+                cfg['disk_pickle_protocol'] = rng.randrange(0, 5)
+                res.count('histories_with_stored_pickle_protocol')
             history(dc, sc, res, rng, shards, cfg, 'c13 seed=%d shard=%d i=%d shards=%d' % (seed, shard, i, shards))
             check_damage(dc, sc, res, rng, shards, 'c13 damage seed=%d shard=%d i=%d' % (seed, shard, i))
             if shards > 1:
@@ -494,6 +548,9 @@ def run_shard(tier, seed, shard, nshards, res):
                 probe.set_clock(None)
                 skewed_cull(dc, sc, res, rng, shards, 'c13 skewed cull seed=%d shard=%d i=%d' % (seed, shard, i))
                 reload_settings(dc, sc, res, rng, shards, 'c13 reload settings seed=%d shard=%d i=%d' % (seed, shard, i))
+                for j in range(3):
+                    bulk_while_shards_locked(dc, sc, res, rng, shards, 'c13 bulk under shard locks seed=%d shard=%d i=%d j=%d' % (
+                        seed, shard, i, j))
             if res.counters.get('violations_raw', 0) > 8:
                 return
         probe.reset()
